@@ -2158,6 +2158,7 @@ def corr_fragment(ctx, P):
         conn = TLSConnection(raw)
         conn.version = (3, 3)
         conn.recordSize = k
+        k = min(k, 16384)          # recordSize is capped by the (default) send record limit
         res = "ok"
         try:
             for _ in conn._sendMsg(Message(ctype, bytearray(data))):
@@ -2457,7 +2458,8 @@ def live_runs(ctx):
         round_no = 0
         while True:
             for scn in scns:
-                if ctx.out_of_time(0.92):
+                if round_no > 0 and ctx.out_of_time(0.92):      # round 0 is the directed one: never cut
+                    ctx.count("cut-by-budget:live-random")
                     break
                 big = scn.get("d1", 0) > 10000
                 ref = refs[scn["name"]]
@@ -2501,7 +2503,9 @@ def live_runs(ctx):
             round_no += 1
             if len(ctx.violations) >= 8:
                 break
-            if ctx.out_of_time(0.92) or round_no >= ctx.pick(6, 80):
+            if ctx.out_of_time(0.92):
+                ctx.count("cut-by-budget:live-random")
+            if ctx.out_of_time(0.92) or round_no >= ctx.pick(4, 80):
                 break
     ctx.extra["live_rounds"] = round_no
     ctx.extra["live_seconds"] = round(ctx.elapsed() - t_live, 1)
